@@ -19,7 +19,7 @@ from ..ref import codec as ref
 ID = 'C10'
 LEVEL = 'fault_enumeration'
 ANCHORS = ('VbsReader.__next__', 'IpmReader.__next__', 'print_exception_details', 'cli_run')
-RULE = ('case = (n records, position k of the faulty record, fault kind, format, codec); every k in 1..n is enumerated for '
+RULE = ('case = (n records, position k of the faulty record, fault kind, format, codec); every k in 1..n is enumerated (files of more than 64 records: the ends, the middle and every eighth position) for '
         'every n and kind. The reader must deliver records 1..k-1 (equal to the strict reference decode), then raise '
         'MciIpmDataError with record_number == k and binary_context_data == length prefix + raw bytes of record k (for '
         'framing faults: a byte string that starts with record k\'s prefix and is a prefix of the payload stream from record '
@@ -141,7 +141,9 @@ def cases(ctx):
     i = 0
     total = 0
     for n in ns:
-        for k in range(1, n + 1):
+        # every position for files of up to 64 records; beyond that the ends, the middle and every eighth position
+        ks = range(1, n + 1) if n <= 64 else sorted(set([1, 2, 3, n // 2, n - 2, n - 1, n] + list(range(8, n, 8))))
+        for k in ks:
             for kind in KINDS:
                 for fmt in ('vbs', '1014'):
                     for enc in ENCS:
@@ -151,7 +153,7 @@ def cases(ctx):
                             yield {'n': n, 'k': k, 'fault': kind, 'fmt': fmt, 'enc': enc,
                                    'consume': CONSUME[(n + k + len(kind) + i) % len(CONSUME)]}
     if ctx.shard == 0:
-        ctx.exhaustive_subspace('n in %s x every k x %d fault kinds x {vbs,1014} x {latin_1,cp500,ascii}' % (ns, len(KINDS)), total)
+        ctx.exhaustive_subspace('n in %s x every k (sampled beyond 64 records) x %d fault kinds x {vbs,1014} x {latin_1,cp500,ascii}' % (ns, len(KINDS)), total)
 
 
 def judge(ctx, case):
